@@ -43,6 +43,20 @@ REQUIRED_COUNTERS = [
 ]
 VOCAB_TRIGGER = None
 
+ANCHORS = [
+    "statham.__main__:main",
+    "statham.titles:_get_title_from_reference",
+    "statham.schema.parser:parse",
+    "statham.schema.parser:_title_format",
+    "statham.schema.parser:_ParseState.dedupe",
+    "statham.schema.elements.meta:ObjectMeta.python",
+    "statham.schema.property:_Property.python",
+    "statham.schema.helpers:custom_repr_args",
+    "statham.serializers.orderer:orderer",
+    "statham.serializers.python:_get_imports",
+    "statham.serializers.python:_get_element_imports",
+]
+
 
 def plan(tier):
     if tier == "quick":
